@@ -54,6 +54,14 @@ def translate():
     out["cw_div"] = _num(m.group(2))
     wc = _find(r"impl From<U32Weight> for Cost \{.*?\n\}\n", an, "From<U32Weight> for Cost").group(0)
     out["wc_mul"] = _num(_find(r"Self\(value\.0\.saturating_mul\(([0-9_]+)\)\)", wc, "weight->cost formula").group(1))
+    bw = _find(r"impl From<bitcoin::Weight> for U32Weight \{.*?\n\}\n", an, "From<bitcoin::Weight> for U32Weight").group(0)
+    if "Self(u32::try_from(value.to_wu()).unwrap_or(u32::MAX))" not in bw:
+        raise TranslateError("xlate_consts: From<bitcoin::Weight> for U32Weight has an unexpected shape")
+    bc = _find(r"impl From<bitcoin::Weight> for Cost \{.*?\n\}\n", an, "From<bitcoin::Weight> for Cost").group(0)
+    out["bwc_mul"] = _num(_find(r"Self\(U32Weight::from\(value\)\.0\.saturating_mul\(([0-9_]+)\)\)", bc, "bitcoin weight -> cost formula").group(1))
+    cb = _find(r"impl From<Cost> for bitcoin::Weight \{.*?\n\}\n", an, "From<Cost> for bitcoin::Weight").group(0)
+    if "bitcoin::Weight::from_wu(u64::from(U32Weight::from(value).0))" not in cb:
+        raise TranslateError("xlate_consts: From<Cost> for bitcoin::Weight has an unexpected shape")
     gp = _find(r"pub fn get_padding\(.*?\n    \}\n", an, "get_padding").group(0)
     m = _find(r"if weight (<=|<) budget \{\s*return None;", gp, "get_padding early return")
     out["pad_none_cmp"] = m.group(1)
@@ -110,7 +118,7 @@ def render(c):
     L.append("Inductive cmp_op := CLe | CLt | CGe | CGt.")
     L.append("Inductive arm_rhs := SatSub (k : N) | Sub (k : N) | Const (k : N).")
     for k in ["overhead", "never_executed", "consensus_max", "free_budget", "valid_mul", "cw_add", "cw_div",
-              "wc_mul", "annex_tag", "annex_fill", "max_cells", "max_frames", "max_display_depth",
+              "wc_mul", "bwc_mul", "annex_tag", "annex_fill", "max_cells", "max_frames", "max_display_depth",
               "max_display_length"]:
         L.append("Definition c_%s : N := %d." % (k, c[k]))
     L.append("Definition c_valid_cmp : cmp_op := %s." % cmpmap[c["valid_cmp"]])
